@@ -562,6 +562,10 @@ func TestVerifC12(t *testing.T) {
 		nHTTP = 3
 	}
 	stepClasses := map[string]int{}
+	inflight := ""
+	if w := os.Getenv("VERIF_WORK"); w != "" {
+		inflight = filepath.Join(w, "c12_inflight.json")
+	}
 	staleReads := 0
 
 	for h := 0; h < n; h++ {
@@ -610,6 +614,14 @@ func TestVerifC12(t *testing.T) {
 			}
 			if op.kind != "delete" {
 				op.body, mustReject = g.body(op.kind == "global")
+			}
+			// if the process dies while this request is handled, the plugin reports it from this file
+			if inflight != "" {
+				b, _ := json.Marshal(map[string]any{"mode": map[bool]string{true: "http", false: "direct"}[useHTTP],
+					"history": h, "initialPaths": initPathsD, "steps": stepDescs,
+					"request": map[string]any{"op": op.kind, "name": op.name, "body": op.body},
+					"note": "the process died while this request was handled or the configuration it produced was loaded"})
+				os.WriteFile(inflight, b, 0o644) //nolint:errcheck
 			}
 			fields, decOK := vC12Decode(op)
 			if op.kind == "defaults" && decOK && len(prev.cells) == 0 {
@@ -717,6 +729,10 @@ func TestVerifC12(t *testing.T) {
 		}
 		out.Case(cqApp("History", mode, cqZ(int64(nameFid)), initTerm[0], initTerm[1], initTerm[2], cqList(stepTerms)),
 			map[string]any{"mode": class, "initialPaths": initPathsD, "steps": stepDescs}, class, nOK > 0 && nRej > 0)
+		out.w.Flush()
+	}
+	if inflight != "" {
+		os.Remove(inflight)
 	}
 	out.extra["steps"] = stepClasses
 	out.extra["snapshots_replaced_within_2ms_after_the_answer_to_an_accepted_edit"] = staleReads
